@@ -2,6 +2,7 @@
 """Regenerates MANIFEST.json from the table below (single source of truth for what is claimed)."""
 import json, os, subprocess
 VERIF = os.path.dirname(os.path.dirname(os.path.abspath(__file__)))
+TECH_GEN = "machine-checked proof in Lean 4: lock-discipline theorem over traces + access table regenerated from /repo by a go/ast translator and decided by the kernel + race-detector correspondence check"
 TECH = "machine-checked proof in Lean 4 over a hand-written executable model + differential correspondence check against /repo"
 NOTE = ("Lean 4.33 kernel; axioms propext/Classical.choice/Quot.sound only (audited per theorem); hand-written model tied to /repo by the "
         "correspondence check (Go harness, -tags verif, vs compiled model driver) whose generator coverage bounds what it sees; ")
@@ -57,6 +58,9 @@ CHECKS = {
  "C20": ("DESIGN.md 5.20",
   "Theorems (unbounded): for every input, server state and handler script, unless the run ends in a recovered panic, the span events of the whole connection satisfy the span discipline (depth machine: one root per request, children only under an open root, FinishSpan pops an open child, root finished once with no child open); every executor including composed ones is balanced on every returning path. Tie: recording tracer double on the library's own span context.",
   "the go-tracing common span context is used as is; runs ending in a recovered panic leave spans open (C07)"),
+ "C14": ("DESIGN.md 5.14",
+  "Theorems: (unbounded, any number of goroutines, any trace the mutexes admit) block-structured locking - every access to a shared field inside a Lock/RLock bracket of its guard, exclusive for writes - implies that two conflicting accesses by different goroutines are separated by an Unlock of the first and a Lock of the second, i.e. ordered by the Go memory model (no data race); the access table REGENERATED from /repo's source on every run (every site touching Config.params, ConnManager.m, Conn.isClosed with the lock mode held there) satisfies that discipline and covers the three fields (decided by the kernel); the listener fields are touched by the application thread only (regenerated control-flow facts). Tie: concurrent workloads on a real server under the Go race detector vs the model's prediction.",
+  "partial: which fields are shared is an assumption checked only dynamically (race detector workloads); the extractor's reading of lock brackets is syntactic; the race detector sees only exercised schedules"),
  "C06": ("DESIGN.md 5.6",
   "Theorems (unbounded): for every byte sequence in every segmentation the next-value read ends in {value without absent elements, clean EOF, error}; never panic, never out of fuel; progress (>=1 byte per value); declared bulk length above the limit is an error before allocation. Tie: real parser on hostile/mutated/near-valid streams; allocation bombs in an isolated child.",
   "Go runtime allocation behaviour for sizes <= 512MiB+2; stack exhaustion far beyond 1 MiB input not modelled"),
@@ -69,7 +73,7 @@ def main():
             "property_id": pid, "quick_cmd": f"bin/check {pid} --tier quick", "thorough_cmd": f"bin/check {pid} --tier thorough",
             "evidence_file": f"/verif/evidence/{pid}.json", "replay_cmd_template": f"bin/check {pid} --replay {{path}}",
             "engine": "lean-model", "level_claimed": {"category": "proof", "text": text, "design_ref": ref},
-            "level_note": NOTE + note, "technique": TECH})
+            "level_note": NOTE + note, "technique": TECH_GEN if pid == "C14" else TECH})
     m["not_applicable"] = [{"property_id": f"C{i:02d}", "reason": "check not built yet in this round (planned, DESIGN.md section 10); not claimed until its model, theorems and tie exist"}
                            for i in range(1, 21) if f"C{i:02d}" not in CHECKS]
     for e in m["engines"]:
